@@ -550,6 +550,33 @@ func kinds() []*kind {
 		r := future.TraverseSeqFunc(func(i int) F { return k[i] }, c.exec...)(fp.Seq[int]{0, 1, 2})
 		return future.Map(r, func(s fp.Seq[int]) int { return comb3(s[0], s[1], s[2]) }, c.exec...)
 	}, trav)
+	// the value of a derived future is fixed by the arguments as they are when the call is made:
+	// the caller overwrites (or goes on consuming) its input as soon as the call has returned, while
+	// sources may still be pending
+	add("TraverseSeq(input overwritten after the call)", 3, false, func(c *ctx, k []F) F {
+		in := fp.Seq[int]{0, 1, 2}
+		r := future.TraverseSeq(in, func(i int) F { return k[i] }, c.exec...)
+		in[0], in[1], in[2] = 2, 2, 2
+		return future.Map(r, func(s fp.Seq[int]) int { return comb3(s[0], s[1], s[2]) }, c.exec...)
+	}, trav)
+	add("TraverseSlice(input overwritten after the call)", 3, false, func(c *ctx, k []F) F {
+		in := []int{0, 1, 2}
+		r := future.TraverseSlice(in, func(i int) F { return k[i] }, c.exec...)
+		in[0], in[1], in[2] = 2, 2, 2
+		return future.Map(r, func(s []int) int { return comb3(s[0], s[1], s[2]) }, c.exec...)
+	}, trav)
+	add("Traverse(Take of an iterator the caller drains after the call)", 3, false, func(c *ctx, k []F) F {
+		it := iterator.Of(0, 1, 2, 0, 0)
+		r := future.Traverse(it.Take(3), func(i int) F { return k[i] }, c.exec...)
+		it.ToSeq()
+		return future.Map(r, func(it fp.Iterator[int]) int { s := it.ToSeq(); return comb3(s[0], s[1], s[2]) }, c.exec...)
+	}, trav)
+	add("Sequence(input overwritten after the call)", 3, false, func(c *ctx, k []F) F {
+		in := []F{k[0], k[1], k[2]}
+		r := future.Sequence(in, c.exec...)
+		in[0], in[1], in[2] = k[2], k[2], k[2]
+		return future.Map(r, func(s []int) int { return comb3(s[0], s[1], s[2]) }, c.exec...)
+	}, m3)
 	return ks
 }
 
